@@ -76,6 +76,16 @@ func (i *InMemoryStore) GetSession(fseid uint64) (PFCPSession, bool) {
 		return PFCPSession{}, false
 	}
 
+	// The caller gets a private copy: the rule slices of the stored value must not be
+	// reachable through it, or an uncommitted (rejected) modification would alter the store.
+	session.pdrs = append(make([]pdr, 0, len(session.pdrs)+MaxItems), session.pdrs...)
+	for i := range session.pdrs {
+		session.pdrs[i].qerIDList = append([]uint32{}, session.pdrs[i].qerIDList...)
+	}
+
+	session.fars = append(make([]far, 0, len(session.fars)+MaxItems), session.fars...)
+	session.qers = append(make([]qer, 0, len(session.qers)+MaxItems), session.qers...)
+
 	logger.PfcpLog.With("session", session).Debugln("Got PFCP session from local store")
 
 	return session, ok
